@@ -66,6 +66,16 @@ Theorem C20_selected_file_is_read :
     /\ load_sel_with envf tbl penv None = load_with envf tbl penv [].
 Proof. exact selected_file_is_read. Qed.
 
+(* a file selected with the option - whatever its name and directory, also one CALLED config.yaml outside the
+   working directory - shadows the default ./config.yaml completely; without the option ./config.yaml is read *)
+Theorem C20_selected_file_shadows_default :
+  forall envf tbl penv ext filel d1 d2,
+    load_files_with envf tbl penv (Some (ext, filel)) d1 = load_files_with envf tbl penv (Some (ext, filel)) d2
+    /\ (In ext viper_exts -> load_files_with envf tbl penv (Some (ext, filel)) d1 = load_with envf tbl penv filel)
+    /\ load_files_with envf tbl penv None (Some filel) = load_with envf tbl penv filel
+    /\ load_files_with envf tbl penv None None = load_with envf tbl penv [].
+Proof. exact selected_file_shadows_default. Qed.
+
 (* the model of the code meets the contract whenever no variable is set to the empty string ... *)
 Theorem C20_load_model_meets_contract :
   forall tbl penv filel, (forall var, ~ In (var, "") penv) -> load_model tbl penv filel = load_spec tbl penv filel.
@@ -142,6 +152,7 @@ Print Assumptions C20_load_precedence.
 Print Assumptions C20_untouched_keys_keep_default.
 Print Assumptions C20_single_env_override.
 Print Assumptions C20_selected_file_is_read.
+Print Assumptions C20_selected_file_shadows_default.
 Print Assumptions C20_load_model_meets_contract.
 Print Assumptions C20_env_empty_refuted.
 Print Assumptions C20_env_name_well_formed.
